@@ -222,6 +222,16 @@ def showSV : Spec.SV → String
   | .exc e => "exc:" ++ toString e
   | .timeout => "timeout"
 
+def showTrace (t : ErrTrace) : String :=
+  let a := match t.handlerArg with
+    | none => "none"
+    | some (.inst e) => if e == ⟨1, 7, [302, 5], e.isException⟩ then "inst" else "other"
+    | some (.cls _) => "cls"
+  let s := match t.seen with
+    | .returned => "returned"
+    | .raised e => if e.ident == 7 && e.args == [302, 5] && e.cls == 1 then "same" else "other"
+  a ++ " " ++ s ++ " " ++ encBool t.page
+
 def pModule : P Module := fun ts => do
   let (ieh, r) ← pIeh ts
   let (t, r) ← pTmpl r.length r
@@ -253,6 +263,16 @@ def handle : Handler
     | some t =>
       let (res, out, _) := render ⟨[codegenModule t none], 1000000000⟩ ⟨none, false⟩ (r.toks.length + 9)
       pure (encBool plain ++ " " ++ encBool ok ++ " " ++ showVRes res ++ " " ++ encStr out)
+  | ["errobj", eh, fe, isx] => do
+    -- decision logic on exception objects: `<handler arg: inst|cls|none> <seen: returned|same> <page>`
+    let (eh, _) ← pIeh [eh]
+    let fe ← decBool fe
+    let isx ← decBool isx
+    pure (showTrace (renderErrorObj ⟨eh, fe⟩ ⟨1, 7, [302, 5], isx⟩))
+  | ["incobj", ieh, isx] => do
+    let (ieh, _) ← pIeh [ieh]
+    let isx ← decBool isx
+    pure (showTrace (includeErrorObj ieh ⟨1, 7, [302, 5], isx⟩))
   | "spec" :: ts => do
     let (k, r) ← pNat ts
     let (fuel, r) ← pNat r
